@@ -140,6 +140,9 @@ func Quiesce() {
 // It models an environment watchdog such as "the manager cancels a sync that stopped progressing".
 func WhenStuck(f func()) { time.AfterFunc(300*time.Millisecond, f) }
 
+// AfterWall runs f once d of (real / modelled) wall-clock time has passed: an operator or client deadline.
+func AfterWall(d time.Duration, f func()) { time.AfterFunc(d, f) }
+
 // ---- crash points ----
 // CrashAt(k) arms the k-th persistence point (k = 0: never). CrashPoint(name) is called by harness-level
 // store wrappers before each persistence operation (the engine's bbolt model has its own points too).
